@@ -23,16 +23,25 @@ type c03Case struct {
 	Templates [][]*hx.N     `json:"templates"`
 	Envs      []hx.Bindings `json:"envs"`
 	Steps     []c03Step     `json:"steps"`
+	Hy        [][]bool      `json:"hy,omitempty"`  // whitespace-control hyphens per template
+	Raw       []string      `json:"raw,omitempty"` // further templates given as source text
 }
 
 const c03Probe = "{{ v1 }}|{{ v2 }}|{{ v3 }}|{{ my-var }}|{{ c1 }}|{{ c2 }}|{{ ok? }}|{{ i }}|{{ j }}|{{ it }}|{{ forloop }}|{{ forloop.index }}|{{ n }}|{{ s }}|{{ a | join: ',' }}|{{ x | join: ',' }}"
 
 var c03History = hx.Define("c03.history", func(c *c03Case, s *hx.Sub) *hx.Violation {
 	eng := newEngine(nil)
-	srcs := make([]string, len(c.Templates))
-	tpls := make([]*liquid.Template, len(c.Templates))
+	srcs := make([]string, len(c.Templates), len(c.Templates)+len(c.Raw))
 	for i, nodes := range c.Templates {
-		srcs[i] = hx.Source(nodes)
+		var hy []bool
+		if i < len(c.Hy) {
+			hy = c.Hy[i]
+		}
+		srcs[i] = hx.Spell(hx.MergeText(hx.Tokens(nodes, nil)), hx.DefaultDelims, hy)
+	}
+	srcs = append(srcs, c.Raw...)
+	tpls := make([]*liquid.Template, len(srcs))
+	for i := range srcs {
 		t, err := eng.ParseString(srcs[i])
 		if err != nil {
 			s.Exclude()
@@ -142,7 +151,7 @@ func TestC03(t *testing.T) {
 
 	h := c03History.On(col, "rapid, stateful: a pool of 3..6 generated templates (assign, capture, loops over binding containers, sort reverse uniq concat compact map join, grouped and ungrouped cycle, break/continue, conditions; some fail part-way depending on the bindings: division by a bound value that is zero in some environments, an error-returning filter) and 2..4 binding environments that are realised ONCE (nested []any with spare capacity, typed slices, maps, Drops, pointers) and shared by reference; a history of 2..40 steps: render(template, environment) on the shared engine and template objects, and reparse(template). Invariants after every step: the deep fingerprint of every environment (incl. spare slice capacity) is what it was at creation; render(i, j) equals its first result and the result on a fresh engine with freshly built equal bindings; a probe of every assignable / loop variable renders as with fresh bindings. Non-trivial: the history contains a failing render followed by a repeat of an earlier pair; distinct by (templates, steps)", false)
 	prof := hx.FullProfile()
-	prof.Failing, prof.Tablerow, prof.MaxNodes, prof.BareJumps = true, true, 12, true
+	prof.Failing, prof.Tablerow, prof.MaxNodes, prof.BareJumps, prof.WSText = true, true, 12, true, true
 	col.Rapid(h.Sub, env.PerShard(env.Pick(25000, 250000)), func(t *rapid.T) {
 		c := &c03Case{}
 		for i, n := 0, rapid.IntRange(3, 6).Draw(t, "ntemplates"); i < n; i++ {
@@ -155,8 +164,26 @@ func TestC03(t *testing.T) {
 			{hx.Obj(hx.Flt(hx.Flt(hx.Var("x"), "compact"), "join", hx.LStr(","))), hx.Assign("v1", hx.Flt(hx.Var("a"), "sort")), hx.Obj(hx.Flt(hx.Flt(hx.Var("a"), "reverse"), "join"))},
 		}
 		c.Templates = append(c.Templates, extra[rapid.IntRange(0, len(extra)-1).Draw(t, "extra")])
+		// whitespace-control hyphens, also at the very end of a template
+		for _, nodes := range c.Templates {
+			var hy []bool
+			if rapid.Bool().Draw(t, "hyphens") {
+				k := hx.CountTags(hx.Tokens(nodes, nil))
+				hy = rapid.SliceOfN(rapid.Bool(), 2*k, 2*k).Draw(t, "hy")
+			}
+			c.Hy = append(c.Hy, hy)
+		}
+		// templates over string data whose interpretation could be cached between renders (dates, numbers)
+		dateFmt := []string{"%Y-%m-%d %H:%M:%S %Z", "%Z", "%a, %b %d, %y", "%s"}
+		for i, n := 0, rapid.IntRange(0, 2).Draw(t, "ndate"); i < n; i++ {
+			c.Raw = append(c.Raw, "  {{ d"+fmt.Sprint(rapid.IntRange(1, 4).Draw(t, "dv"))+" | date: \""+rapid.SampledFrom(dateFmt).Draw(t, "dfmt")+"\" }} {{- n -}}")
+		}
+		dates := []string{"2020-05-03 04:05:06 +0000", "2020-05-03 04:05:06 EST", "2015-06-07", "March 14, 2016", "2017-07-09T10:40:00Z", "Jan 2 2006", "2020-05-03 04:05:06 +0100", "not a date"}
 		for j, n := 0, rapid.IntRange(2, 4).Draw(t, "nenvs"); j < n; j++ {
 			b := hx.GenBindings(t, prof)
+			for d := 1; d <= 4; d++ {
+				b[fmt.Sprintf("d%d", d)] = hx.SStr(rapid.SampledFrom(dates).Draw(t, "date"))
+			}
 			for _, name := range sortedNames(b) {
 				sp := b[name]
 				switch sp.K {
@@ -182,7 +209,7 @@ func TestC03(t *testing.T) {
 		}
 		steps := rapid.IntRange(2, 40).Draw(t, "nsteps")
 		for k := 0; k < steps; k++ {
-			st := c03Step{Op: "render", I: rapid.IntRange(0, len(c.Templates)-1).Draw(t, "i"), J: rapid.IntRange(0, len(c.Envs)-1).Draw(t, "j")}
+			st := c03Step{Op: "render", I: rapid.IntRange(0, len(c.Templates)+len(c.Raw)-1).Draw(t, "i"), J: rapid.IntRange(0, len(c.Envs)-1).Draw(t, "j")}
 			if rapid.IntRange(0, 9).Draw(t, "reparse") == 0 {
 				st.Op = "reparse"
 			}
